@@ -20,6 +20,8 @@ Directive grammar (each on its own line, leading whitespace allowed):
   //@ forward "CALL" => "EXPR" via FILE :: SELECTOR == "BODY"   rule R20: CALL is a call of the forwarding method SELECTOR whose body is
                             (checked on every run) exactly BODY; it is replaced by EXPR
   //@ for-next N into=F next=G [iter=NAME]   rule R18: the N-th loop, a `for`, is written as `loop { match G(&mut it) {..} }`
+  //@ call-range "START" [.. "END"] => "CALL"   (R16, on a whole fn item) the statements from the one that starts at START through the one that
+                            starts at END - a region verified on its own against the same text - are replaced by CALL
   //@ region-closure "NAME"   rule R30: like region-start, but the region is the body of the closure bound by `let [mut] NAME = |..| {..};`
   //@ closure-calls "NAME" => "FN" with "EXTRA, .."   rule R30: the binding is removed and every call NAME(ARGS) becomes FN(ARGS, EXTRA, ..)
   //@ encode-calls "PREFIX" => "FN"   rule R26: `PREFIX::V(args).encode(&mut b)` is written as the call `FN_V(args, &mut b)` of a named emitter
@@ -1373,6 +1375,22 @@ def extract_item(path, selector, opts, directives, findings_open):
             prefix = "#[derive(%s)]\n" % ", ".join(adds); rules.append("R2")
     for a in directives.get("attr", []):
         prefix += a + "\n"
+    # (R16, used on a whole function) a run of statements that is a region verified on its own is replaced by a call of its synthetic function
+    for (a0_, a1_, repl_) in directives.get("callrange", []):
+        if text.count(a0_) != 1: raise ExtractError("anchor lost: call-range start %r occurs %d times in %s %s" % (a0_[:40], text.count(a0_), path, selector))
+        t2, st2 = _sig_with_index(text)
+        p0 = text.index(a0_)
+        i2 = next((i for i, t in enumerate(st2) if t.start == p0), None)
+        if i2 is None or not _stmt_start(st2, i2): raise ExtractError("call-range start is not the first token of a statement in %s %s" % (path, selector))
+        if a1_:
+            if text.count(a1_) != 1: raise ExtractError("anchor lost: call-range end %r occurs %d times in %s %s" % (a1_[:40], text.count(a1_), path, selector))
+            p1 = text.index(a1_)
+            j2 = next((i for i, t in enumerate(st2) if t.start == p1), None)
+            if j2 is None or not _stmt_start(st2, j2) or j2 < i2: raise ExtractError("call-range end is not the first token of a later statement in %s %s" % (path, selector))
+        else: j2 = i2
+        c2 = _stmt_extent(st2, j2)
+        text = text[:st2[i2].start] + repl_ + text[st2[c2].end:]
+        pc.substs.append({"from": a0_ + " .. " + (a1_ or ""), "to": repl_, "count": 1, "kind": "call-range"}); rules.append("R16")
     # declared substitutions (R11)
     for (a, b, allflag) in directives.get("subst", []):
         n = text.count(a)
@@ -1695,6 +1713,14 @@ def generate(spec_path, open_findings=(), auto_helpers=()):
                         if d2.startswith("region-start "):
                             q, _r = _parse_quoted(d2[len("region-start "):]); directives.setdefault("region", {})["start"] = q
                             if _r.strip().startswith("#"): directives["region"]["start_k"] = int(_r.strip()[1:])
+                        elif d2.startswith("call-range "):
+                            a_, rest_ = _parse_quoted(d2[len("call-range "):])
+                            b_ = None
+                            if rest_.strip().startswith(".."):
+                                b_, rest_ = _parse_quoted(rest_.strip()[2:])
+                            if not rest_.strip().startswith("=>"): raise ExtractError("bad call-range: %s" % d2)
+                            c_, _r = _parse_quoted(rest_.strip()[2:])
+                            directives.setdefault("callrange", []).append((a_, b_, c_))
                         elif d2.startswith("region-closure "):
                             q, _r = _parse_quoted(d2[len("region-closure "):]); directives.setdefault("region", {})["closure"] = q
                             directives["region"]["start"] = None
